@@ -186,9 +186,19 @@ pub fn worker_main(args: &[String]) -> i32 {
             use std::os::unix::fs::FileExt;
             let _ = cur.write_at(format!("{i:>20}\n").as_bytes(), 0);
         }
-        let case = make_case(p, vseed, i, tier);
+        if rep.evaluations > 0 && rep.evaluations % 256 == 0 {
+            write_report(&mut rep, &out, &distinct, tapes.len(), t0);
+        }
+        let mut case = make_case(p, vseed, i, tier);
         let o = p.execute(&case);
-        rep.evaluations += 1;
+        if let Some(w) = &o.work_override {
+            case.work = w.clone();
+        }
+        rep.evaluations += 1 + o.extra_evals;
+        for d in &o.extra_distinct {
+            distinct.insert(*d);
+        }
+        rep.nontrivial += o.extra_distinct.len() as u64;
         rep.steps += o.steps;
         rep.switches += o.switches;
         rep.max_threads = rep.max_threads.max(o.threads);
@@ -232,18 +242,24 @@ pub fn worker_main(args: &[String]) -> i32 {
             }
         }
     }
+    write_report(&mut rep, &out, &distinct, tapes.len(), t0);
+    let _ = std::fs::remove_file(cur_path);
+    0
+}
+
+fn write_report(rep: &mut WorkerReport, out: &Path, distinct: &HashSet<u64>, ntapes: usize, t0: Instant) {
     rep.wall_ms = t0.elapsed().as_millis() as u64;
-    rep.distinct_tapes = tapes.len() as u64;
+    rep.distinct_tapes = ntapes as u64;
     let dpath = out.with_extension("distinct");
     let mut bytes = Vec::with_capacity(distinct.len() * 8);
-    for d in &distinct {
+    for d in distinct {
         bytes.extend_from_slice(&d.to_le_bytes());
     }
     std::fs::write(&dpath, bytes).unwrap();
     rep.distinct_file = Some(dpath.display().to_string());
-    std::fs::write(&out, serde_json::to_string(&rep).unwrap()).unwrap();
-    let _ = std::fs::remove_file(cur_path);
-    0
+    let tmp = out.with_extension("json.tmp");
+    std::fs::write(&tmp, serde_json::to_string(&rep).unwrap()).unwrap();
+    let _ = std::fs::rename(&tmp, out);
 }
 
 // ------------------------------------------------------------------ replay
@@ -261,6 +277,22 @@ pub fn replay_main(args: &[String]) -> i32 {
         return 2;
     }
     let p = props::by_id(&rf.case.prop).expect("unknown property");
+    if rf.expect.rule == "crash" {
+        let scratch = scratch_dir();
+        let r = dies_in_subprocess(&std::env::current_exe().unwrap(), &scratch, &rf.case);
+        let _ = std::fs::remove_dir_all(&scratch);
+        return match r {
+            Some(kind) => {
+                println!("REPLAY property={} the process died again ({kind}); recorded: {}", rf.case.prop, rf.expect.sig);
+                println!("REPRODUCED exactly (a fresh process executing this case dies)");
+                1
+            }
+            None => {
+                println!("REPLAY property={} no crash (recorded: {})", rf.case.prop, rf.expect.sig);
+                0
+            }
+        };
+    }
     let o = p.execute(&rf.case);
     if std::env::var_os("SIM_TRACE").is_some() {
         for l in &o.trace {
@@ -294,15 +326,35 @@ pub fn replay_main(args: &[String]) -> i32 {
 struct Child {
     proc: std::process::Child,
     out: PathBuf,
-    range: (u64, u64),
+    k: usize,
+    gen: usize,
     last_cur: String,
     last_change: Instant,
+}
+
+/// Execute one case in a fresh process; returns Some(kind) if the process died.
+fn dies_in_subprocess(exe: &Path, scratch: &Path, case: &Case) -> Option<String> {
+    let f = scratch.join("trycase.json");
+    std::fs::write(&f, serde_json::to_string(case).unwrap()).ok()?;
+    let o = Command::new(exe).args(["trycase", f.to_str().unwrap()]).stdout(Stdio::null()).stderr(Stdio::piped()).output().ok()?;
+    if o.status.code().is_some() {
+        return None;
+    }
+    let err = String::from_utf8_lossy(&o.stderr);
+    Some(if err.contains("overflowed its stack") { "stack-overflow" } else if err.contains("double free") || err.contains("corrupt") || err.contains("invalid next size") || err.contains("invalid pointer") { "heap-corruption" } else { "abort" }.to_string())
+}
+pub fn trycase_main(args: &[String]) -> i32 {
+    let Some(case) = args.get(2).and_then(|p| std::fs::read_to_string(p).ok()).and_then(|s| serde_json::from_str::<Case>(&s).ok()) else { return 2 };
+    let p = props::by_id(&case.prop).expect("unknown property");
+    let o = p.execute(&case);
+    o.fail.is_some() as i32
 }
 
 pub fn run_main(args: &[String]) -> i32 {
     let pid = arg(args, "--prop").expect("--prop");
     let p = props::by_id(&pid).expect("unknown property");
     let tier = if arg(args, "--tier").as_deref() == Some("thorough") { Tier::Thorough } else { Tier::Quick };
+    let tier_s = if tier == Tier::Quick { "quick" } else { "thorough" };
     let vseed: u64 = arg(args, "--seed").map(|s| s.parse().unwrap()).unwrap_or(DEFAULT_SEED);
     let workers: usize = arg(args, "--workers").map(|s| s.parse().unwrap()).unwrap_or_else(|| std::thread::available_parallelism().map(|n| n.get()).unwrap_or(4));
     let info = p.info();
@@ -315,45 +367,51 @@ pub fn run_main(args: &[String]) -> i32 {
     println!("simcheck property={} flavour={} tier={:?} VERIF_SEED={} runs={} workers={}", pid, flavour(), tier, vseed, runs, workers);
 
     // interleaved index assignment (worker k takes k, k+W, ...): every worker sees the whole swarm mix
-    let mut children: Vec<Child> = vec![];
-    for k in 0..workers.min(runs.max(1) as usize) {
-        let out = scratch.join(format!("w{k}.json"));
+    let spawn = |k: usize, gen: usize, from: u64| -> Child {
+        let out = scratch.join(format!("w{k}-{gen}.json"));
         let mut c = Command::new(&exe);
-        c.args(["worker", "--prop", &pid, "--verif-seed", &vseed.to_string(), "--from", &k.to_string(), "--to", &runs.to_string(), "--stride", &workers.to_string(), "--tier", if tier == Tier::Quick { "quick" } else { "thorough" }, "--out", out.to_str().unwrap(), "--core", &k.to_string()]);
+        c.args(["worker", "--prop", &pid, "--verif-seed", &vseed.to_string(), "--from", &from.to_string(), "--to", &runs.to_string(), "--stride", &workers.to_string(), "--tier", tier_s, "--out", out.to_str().unwrap(), "--core", &k.to_string()]);
         if let Some(d) = deadline_s {
-            c.args(["--deadline-s", &d.to_string()]);
+            c.args(["--deadline-s", &d.saturating_sub(t0.elapsed().as_secs()).to_string()]);
         }
-        c.stdout(Stdio::inherit()).stderr(Stdio::inherit());
-        children.push(Child { proc: c.spawn().expect("spawn worker"), out, range: (k as u64, workers as u64), last_cur: String::new(), last_change: Instant::now() });
-    }
+        c.stdout(Stdio::inherit()).stderr(Stdio::null());
+        Child { proc: c.spawn().expect("spawn worker"), out, k, gen, last_cur: String::new(), last_change: Instant::now() }
+    };
+    let mut children: Vec<Child> = (0..workers.min(runs.max(1) as usize)).map(|k| spawn(k, 0, k as u64)).collect();
     let mut harness_errors: Vec<String> = vec![];
     let mut crashes: Vec<(u64, String)> = vec![];
     let mut reports: Vec<WorkerReport> = vec![];
-    // wait with a progress watchdog
+    let read_report = |out: &Path| std::fs::read_to_string(out).ok().and_then(|s| serde_json::from_str::<WorkerReport>(&s).ok());
+    // wait with a progress watchdog; a worker that dies is restarted after the run that killed it
     while !children.is_empty() {
-        std::thread::sleep(Duration::from_millis(50));
+        std::thread::sleep(Duration::from_millis(20));
         let mut i = 0;
         while i < children.len() {
             let ch = &mut children[i];
             let curp = ch.out.with_extension("cur");
             let cur = std::fs::read_to_string(&curp).unwrap_or_default();
-            if cur != ch.last_cur {
+            if !cur.is_empty() && cur != ch.last_cur {
                 ch.last_cur = cur;
                 ch.last_change = Instant::now();
             }
             match ch.proc.try_wait() {
                 Ok(Some(st)) => {
                     let ch = children.remove(i);
-                    if st.success() {
-                        match std::fs::read_to_string(&ch.out).ok().and_then(|s| serde_json::from_str::<WorkerReport>(&s).ok()) {
-                            Some(r) => reports.push(r),
-                            None => harness_errors.push(format!("worker {:?} wrote no report", ch.range)),
-                        }
-                    } else {
-                        let idx: Option<u64> = ch.last_cur.trim().parse().ok().or_else(|| std::fs::read_to_string(ch.out.with_extension("cur")).ok().and_then(|s| s.trim().parse().ok()));
-                        match idx {
-                            Some(ix) => crashes.push((ix, format!("worker process died: {st}"))),
-                            None => harness_errors.push(format!("worker {:?} died ({st}) before its first run", ch.range)),
+                    if let Some(r) = read_report(&ch.out) {
+                        reports.push(r);
+                    } else if st.success() {
+                        harness_errors.push(format!("worker {} wrote no report", ch.k));
+                    }
+                    if !st.success() {
+                        match ch.last_cur.trim().parse::<u64>() {
+                            Ok(ix) => {
+                                crashes.push((ix, format!("worker process died: {st}")));
+                                let next = ix + workers as u64;
+                                if next < runs && ch.gen < 40 && crashes.len() < 200 {
+                                    children.push(spawn(ch.k, ch.gen + 1, next));
+                                }
+                            }
+                            Err(_) => harness_errors.push(format!("worker {} died ({st}) before its first run", ch.k)),
                         }
                     }
                     continue;
@@ -363,7 +421,7 @@ pub fn run_main(args: &[String]) -> i32 {
                         let _ = ch.proc.kill();
                         let _ = ch.proc.wait();
                         let ch = children.remove(i);
-                        harness_errors.push(format!("worker {:?} made no progress for 120 s at index {} (killed)", ch.range, ch.last_cur.trim()));
+                        harness_errors.push(format!("worker {} made no progress for 120 s at index {} (killed)", ch.k, ch.last_cur.trim()));
                         continue;
                     }
                 }
@@ -376,35 +434,68 @@ pub fn run_main(args: &[String]) -> i32 {
             i += 1;
         }
     }
-    // crashed seeds: confirm in a fresh process
+    // crashed runs: confirm each distinct kind in a fresh process, then minimise by subprocess executions
     let findings = load_findings();
     let mut violations: Vec<FailureRecord> = vec![];
     let mut known: BTreeMap<String, (u64, String)> = BTreeMap::new();
-    for (ix, what) in &crashes {
-        let out = scratch.join(format!("crash{ix}.json"));
-        let st = Command::new(&exe).args(["worker", "--prop", &pid, "--verif-seed", &vseed.to_string(), "--from", "0", "--to", "0", "--indexes", &ix.to_string(), "--tier", if tier == Tier::Quick { "quick" } else { "thorough" }, "--out", out.to_str().unwrap()]).stdout(Stdio::null()).stderr(Stdio::piped()).output();
-        match st {
-            Ok(o) if !o.status.success() => {
-                let err = String::from_utf8_lossy(&o.stderr);
-                let last = err.lines().rev().find(|l| !l.trim().is_empty()).unwrap_or("").to_string();
-                let kind = if err.contains("overflowed its stack") { "stack-overflow" } else if err.contains("double free") || err.contains("corrupt") { "heap-corruption" } else { "abort" };
-                let sig = format!("{pid}/crash/{kind}");
-                if let Some(k) = match_finding(&findings, &pid, &sig) {
-                    let e = known.entry(k.id.clone()).or_insert((0, k.what_fails.clone()));
-                    e.0 += 1;
-                } else {
-                    let case = make_case(p, vseed, *ix, tier);
-                    let dir = verif_dir().join("replays");
-                    let _ = std::fs::create_dir_all(&dir);
-                    let path = dir.join(format!("{}-{}-{}-{}-crash.json", pid, flavour(), vseed, ix));
-                    let rf = ReplayFile { case, expect: Fail { rule: "crash".into(), msg: format!("{what}; {last}"), sig: sig.clone() }, digest: String::new(), steps: 0, note: "the worker process died while executing this run; confirmed by re-running the same index in a fresh process. Not minimised (each attempt kills the process).".into() };
-                    std::fs::write(&path, serde_json::to_string_pretty(&rf).unwrap()).unwrap();
-                    violations.push(FailureRecord { index: *ix, rule: "crash".into(), sig, msg: format!("{what}; {last}"), replay: path.display().to_string(), original_size: 0, minimised_size: 0 });
-                }
-            }
-            Ok(_) => harness_errors.push(format!("worker died at index {ix} ({what}) but the same index ran clean in a fresh process")),
-            Err(e) => harness_errors.push(format!("cannot re-run crashed index {ix}: {e}")),
+    let mut crash_sigs: BTreeMap<String, u64> = BTreeMap::new();
+    let mut unconfirmed = 0u64;
+    crashes.sort();
+    for (n, (ix, what)) in crashes.iter().enumerate() {
+        if n >= 12 && !crash_sigs.is_empty() {
+            // enough confirmations; the rest is counted under the first signature
+            let first = crash_sigs.keys().next().unwrap().clone();
+            *crash_sigs.get_mut(&first).unwrap() += 1;
+            continue;
         }
+        let case = make_case(p, vseed, *ix, tier);
+        match dies_in_subprocess(&exe, &scratch, &case) {
+            Some(kind) => {
+                let sig = format!("{pid}/crash/{kind}");
+                let seen = crash_sigs.contains_key(&sig);
+                *crash_sigs.entry(sig.clone()).or_insert(0) += 1;
+                if seen {
+                    continue;
+                }
+                if let Some(k) = match_finding(&findings, &pid, &sig) {
+                    known.entry(k.id.clone()).or_insert((0, k.what_fails.clone()));
+                    continue;
+                }
+                // minimise: accept a smaller workload if the fresh process still dies the same way
+                let mut best = case.clone();
+                let mut budget = 150u32;
+                'outer: loop {
+                    for cand in p.shrink(&best.work) {
+                        if budget == 0 {
+                            break 'outer;
+                        }
+                        budget -= 1;
+                        let mut c2 = best.clone();
+                        c2.work = cand;
+                        if dies_in_subprocess(&exe, &scratch, &c2).as_deref() == Some(kind.as_str()) {
+                            best = c2;
+                            continue 'outer;
+                        }
+                    }
+                    break;
+                }
+                let dir = verif_dir().join("replays");
+                let _ = std::fs::create_dir_all(&dir);
+                let path = dir.join(format!("{}-{}-{}-{}-crash.json", pid, flavour(), vseed, ix));
+                let rf = ReplayFile { case: best.clone(), expect: Fail { rule: "crash".into(), msg: format!("{what} ({kind})"), sig: sig.clone() }, digest: String::new(), steps: 0, note: format!("the worker process died while executing run index {ix}; confirmed and minimised by re-executing in fresh processes ({} executions); workload {} -> {} bytes", 150 - budget, case.work.to_string().len(), best.work.to_string().len()) };
+                std::fs::write(&path, serde_json::to_string_pretty(&rf).unwrap()).unwrap();
+                violations.push(FailureRecord { index: *ix, rule: "crash".into(), sig, msg: format!("{what} ({kind})"), replay: path.display().to_string(), original_size: case.work.to_string().len(), minimised_size: best.work.to_string().len() });
+            }
+            None => unconfirmed += 1,
+        }
+    }
+    for (sig, n) in &crash_sigs {
+        if let Some(k) = match_finding(&findings, &pid, sig) {
+            known.get_mut(&k.id).unwrap().0 += n;
+        }
+    }
+    if unconfirmed > 0 {
+        harness_errors.push(format!("{unconfirmed} worker death(s) did not reproduce when the same run was executed alone in a fresh process (memory corruption by the code under test in an earlier run, or a harness problem)"));
     }
     // merge
     let mut tot = WorkerReport::default();
@@ -453,7 +544,7 @@ pub fn run_main(args: &[String]) -> i32 {
     if !sample.is_empty() && violations.is_empty() {
         let out = scratch.join("recheck.json");
         let list = sample.iter().map(|x| x.to_string()).collect::<Vec<_>>().join(",");
-        let st = Command::new(&exe).args(["worker", "--prop", &pid, "--verif-seed", &vseed.to_string(), "--from", "0", "--to", "0", "--indexes", &list, "--tier", if tier == Tier::Quick { "quick" } else { "thorough" }, "--out", out.to_str().unwrap(), "--core", "7"]).status();
+        let st = Command::new(&exe).args(["worker", "--prop", &pid, "--verif-seed", &vseed.to_string(), "--from", "0", "--to", "0", "--indexes", &list, "--tier", tier_s, "--out", out.to_str().unwrap(), "--core", "7"]).status();
         match st.ok().filter(|s| s.success()).and_then(|_| std::fs::read_to_string(&out).ok()).and_then(|s| serde_json::from_str::<WorkerReport>(&s).ok()) {
             Some(r) => {
                 for (i, d) in r.digests {
